@@ -12,7 +12,8 @@ def run(tier: str, seed: int):
     if tier == 'quick':
         cfgs = (list(F.fam_faults(1, 4, max_faults=1, reqs='sinks')) + list(F.fam_limits(1, 3, batch=2, faults=True, stutter=True))
                 + list(F.fam_shapes(1, 4, batch=2)) + list(F.fam_variants(2)) + list(F.fam_inherit(3, faults=True)))
-        serial = list(F.fam_inherit(2, faults=True)) + list(F.fam_faults(1, 3, max_faults=2, kinds=('raise',))) + list(F.fam_limits(1, 3, batch=1)) + list(F.fam_variants(2))
+        cfgs = list(cfgs) + list(F.fam_mlflow(3))
+        serial = list(F.fam_mlflow(2)) + list(F.fam_inherit(2, faults=True)) + list(F.fam_faults(1, 3, max_faults=2, kinds=('raise',))) + list(F.fam_limits(1, 3, batch=1)) + list(F.fam_variants(2))
         rule = 'n<=4 shapes x faults (raise|died) x continue_on_failure; type limits incl. max_parallel=1 with empty polls; pre-cached subsets'
         e3c = list(F.fam_e3(list(F.fam_faults(1, 3, max_faults=1, reqs='sinks')) + list(F.fam_limits(1, 3, tnames=('TA', 'TB'), faults=True)), workers=(1, 2), die_exit0=(False, True)))
         # default displays (progress bars + task monitor) switched on
